@@ -124,6 +124,7 @@ async function run (req) {
   const rewriters = {}
   const latest = {} // file -> { content (what the package returned), code (original), step }
   const problems = []
+  const late = []
   const notes = { probes: 0, framesChecked: 0, evalFrames: 0, lookups: 0 }
   for (let i = 0; i < req.steps.length; i++) {
     const step = req.steps[i]
@@ -147,7 +148,7 @@ async function run (req) {
         const orig = compileModule(cur.code, step.file)
         const rewr = compileModule(cur.content, step.file)
         const userFrames = []
-        const userHandler = (e, cs) => { for (const c of cs) { userFrames.push({ fn: c.getFunctionName(), file: c.getFileName(), line: c.getLineNumber(), col: c.getColumnNumber(), raw: c.callSite ? { file: c.callSite.getFileName(), line: c.callSite.getLineNumber(), col: c.callSite.getColumnNumber() } : null, isEval: c.isEval() }) } return 'handled' }
+        const userHandler = (e, cs) => { for (const c of cs) { userFrames.push({ fn: c.getFunctionName(), file: c.getFileName(), line: c.getLineNumber(), col: c.getColumnNumber(), raw: c.callSite ? { file: c.callSite.getFileName(), line: c.callSite.getLineNumber(), col: c.callSite.getColumnNumber() } : null, isEval: c.isEval(), str: (() => { try { return String(c) } catch (e) { return 'toString threw' } })() }) } return 'handled' }
         // all three runs are started from the same source line, so that the harness' own frames are identical
         const runs = [[orig, rawHandler], [rewr, p.getPrepareStackTrace(userHandler)], [rewr, p.getPrepareStackTrace(undefined)]]
         const outs = []
@@ -167,6 +168,15 @@ async function run (req) {
             if (!accept(want, g.file, g.line)) {
               problems.push({ step: i, kind: wrongKind(cur), mode: 'user', site: step.site, frame: k, fn: e.fn, expected: want, got: { file: g.file, line: g.line }, rawRewritten: g.raw })
               break
+            }
+            // the wrapped call site rendered as text (what a handler printing `String(callSite)` shows): reported last,
+            // only when the history has no other problem
+            const alts = want.alts || [{ path: want.path }]
+            const lines = []
+            for (let l = want.lo; l <= want.hi; l++) lines.push(l)
+            for (const a of alts) if (a.line !== undefined) lines.push(a.line)
+            if (typeof g.str === 'string' && !alts.some(a => lines.some(l => g.str.includes(a.path + ':' + l + ':')))) {
+              late.push({ step: i, kind: 'callsite-tostring-untranslated', mode: 'user', site: step.site, frame: k, expectedPath: want.path, got: g.str })
             }
           } else if (!e.isEval) {
             if (g.file !== e.file || g.line !== e.line || g.col !== e.col) { problems.push({ step: i, kind: 'foreign-frame-changed', mode: 'user', frame: k, expected: e, got: g }); break }
@@ -223,6 +233,7 @@ async function run (req) {
       problems.push({ step: i, kind: 'harness', detail: String(e && e.stack).slice(0, 400) })
     }
   }
+  if (!problems.length && late.length) problems.push(late[0])
   return { problems, notes }
 }
 
